@@ -207,11 +207,26 @@ static __always_inline int is_zero_mac(__u8 *mac) {
  * We check several fixed offsets where it commonly appears.
  * ======================================================================== */
 
+/* True when opts[start..end) is exactly one option [code][len][len bytes]
+ * (not PAD, not END).  Constant offsets only.
+ */
+static __always_inline int one_option_spans(__u8 *opts, int start, int end) {
+	return opts[start] != 0 && opts[start] != 255 &&
+	       opts[start + 1] == end - start - 2;
+}
+
 /* Extract DHCP message type from options
  * Returns the message type (1-8) or 0 if not found
  *
  * We check fixed positions only - no variable offsets for verifier safety.
  * Common DHCP option layouts place Option 53 early in the options area.
+ *
+ * A fixed offset is only trusted when the bytes in front of it form whole
+ * options (or a PAD followed by a whole option).  Otherwise the bytes
+ * 35 01 xx inside the value of another option - e.g. a client identifier
+ * (option 61) that comes first and carries a MAC address containing
+ * 35:01:01 - would be taken for the message type, and a REQUEST would be
+ * answered with an OFFER.  Every other layout goes to the slow path.
  */
 static __always_inline __u8 get_dhcp_msg_type(void *dhcp_base, void *data_end) {
 	/* DHCP options start at offset 240 (after fixed header + magic cookie) */
@@ -226,23 +241,31 @@ static __always_inline __u8 get_dhcp_msg_type(void *dhcp_base, void *data_end) {
 		return opts[2];
 
 	/* Check fixed offset 1: [pad][53][1][type] */
-	if (opts[1] == 53 && opts[2] == 1)
+	if (opts[0] == 0 && opts[1] == 53 && opts[2] == 1)
 		return opts[3];
 
-	/* Check fixed offset 3: common for small first option */
-	if (opts[3] == 53 && opts[4] == 1)
+	/* Check fixed offset 3: one option with a 1-byte value in front */
+	if (opts[3] == 53 && opts[4] == 1 && one_option_spans(opts, 0, 3))
 		return opts[5];
 
-	/* Check fixed offset 4: another common position */
-	if (opts[4] == 53 && opts[5] == 1)
+	/* Check fixed offset 4: one option with a 2-byte value, or PAD + 1-byte value */
+	if (opts[4] == 53 && opts[5] == 1 &&
+	    (one_option_spans(opts, 0, 4) ||
+	     (opts[0] == 0 && one_option_spans(opts, 1, 4))))
 		return opts[6];
 
-	/* Check fixed offset 5 */
-	if (opts[5] == 53 && opts[6] == 1)
+	/* Check fixed offset 5: one option with a 3-byte value, or PAD + 2-byte value */
+	if (opts[5] == 53 && opts[6] == 1 &&
+	    (one_option_spans(opts, 0, 5) ||
+	     (opts[0] == 0 && one_option_spans(opts, 1, 5))))
 		return opts[7];
 
-	/* Check fixed offset 6 */
-	if (opts[6] == 53 && opts[7] == 1)
+	/* Check fixed offset 6: one option with a 4-byte value, PAD + 3-byte
+	 * value, or two options with 1-byte values */
+	if (opts[6] == 53 && opts[7] == 1 &&
+	    (one_option_spans(opts, 0, 6) ||
+	     (opts[0] == 0 && one_option_spans(opts, 1, 6)) ||
+	     (one_option_spans(opts, 0, 3) && one_option_spans(opts, 3, 6))))
 		return opts[8];
 
 	/* Not found in first 12 bytes - pass to slow path */
